@@ -126,7 +126,7 @@ end
 
 def showErr : DErr → String
   | .eof => "eof" | .badCode => "badcode" | .badValue => "badvalue" | .badLen => "badlen"
-  | .utf8 => "utf8" | .depth => "depth" | .custom => "custom"
+  | .utf8 => "utf8" | .depth => "depth" | .custom => "custom" | .fuel => "model-fuel"
 
 def step (ws : List String) : Option String :=
   match ws with
